@@ -5,6 +5,8 @@ package main
 // the verified content is compared with the request.
 
 import (
+	_ "time/tzdata" // tz-database zones without depending on the host
+
 	"crypto"
 	"crypto/x509"
 	"encoding/base64"
@@ -48,6 +50,7 @@ type signSpec struct {
 	label        string
 	tags         []string
 	ts           *tsSpec // timestamping (C15); nil = nothing configured
+	longValid    bool    // signer certificates valid 1951..2090 (signing times far from today)
 }
 
 type stubLocal struct {
@@ -166,6 +169,9 @@ func jwsObjectPayload(p string) bool {
 
 func runSignSpec(r *Runner, s signSpec, idx int) {
 	id := getIdentity(s.keyID, s.chainLen)
+	if s.longValid {
+		id = getIdentityLong(s.keyID, s.chainLen)
+	}
 	chain := id.chain
 	switch s.chainMut {
 	case "bad-leaf-ku":
@@ -445,6 +451,44 @@ func runSignSpec(r *Runner, s signSpec, idx int) {
 	r.Submit(c)
 }
 
+type tzInstant struct {
+	name, zone string
+	utc        time.Time
+	exp        time.Time
+}
+
+func (z tzInstant) t() time.Time {
+	loc, err := time.LoadLocation(z.zone)
+	if err != nil {
+		panic(err)
+	}
+	return z.utc.In(loc)
+}
+
+func utcT(s string) time.Time {
+	t, err := time.Parse(time.RFC3339Nano, s)
+	if err != nil {
+		panic(err)
+	}
+	return t
+}
+
+var tzInstants = []tzInstant{
+	{"new-york-first-0130", "America/New_York", utcT("2024-11-03T05:30:15.5Z"), time.Time{}},
+	{"new-york-second-0130", "America/New_York", utcT("2024-11-03T06:30:15.5Z"), time.Time{}},
+	{"new-york-second-0130-expiry-next-year-second-0110", "America/New_York", utcT("2024-11-03T06:30:15.5Z"), utcT("2025-11-02T06:10:00Z")},
+	{"new-york-expiry-20min-later-across-set-back", "America/New_York", utcT("2024-11-03T05:50:00Z"), utcT("2024-11-03T06:10:00Z")},
+	{"new-york-after-gap", "America/New_York", utcT("2024-03-10T07:00:00.3Z"), time.Time{}},
+	{"berlin-second-0230", "Europe/Berlin", utcT("2024-10-27T01:30:00.25Z"), time.Time{}},
+	{"lord-howe-second-0145", "Australia/Lord_Howe", utcT("2024-04-06T15:15:10Z"), time.Time{}},
+	{"st-johns-second", "America/St_Johns", utcT("2024-11-03T04:45:00.9Z"), time.Time{}},
+	{"kathmandu", "Asia/Kathmandu", utcT("2031-05-05T05:05:05.05Z"), time.Time{}},
+	{"chatham", "Pacific/Chatham", utcT("2024-04-06T14:00:30Z"), time.Time{}},
+	{"monrovia-1965-offset-with-seconds", "Africa/Monrovia", utcT("1965-03-01T12:44:37Z"), time.Time{}},
+	{"amsterdam-1930-offset-with-seconds", "Europe/Amsterdam", utcT("1960-03-01T12:00:07Z").AddDate(-7, 0, 0), time.Time{}},
+	{"utc-2080", "UTC", utcT("2080-02-29T23:59:59.999999999Z"), time.Time{}},
+}
+
 func algOfSpec(k signature.KeySpec) string {
 	switch k {
 	case signature.KeySpec{Type: signature.KeyTypeRSA, Size: 2048}:
@@ -542,6 +586,17 @@ func genSign(r *Runner, prop string) {
 	add("expiry-minus-1s", "", func(s *signSpec) { s.expiry = s.st.Add(-time.Second) })
 	add("expiry-later", "", func(s *signSpec) { s.expiry = s.st.Add(24 * time.Hour) })
 	add("expiry-without-st", "", func(s *signSpec) { s.expiry = s.st.Add(time.Hour); s.st = time.Time{} })
+	// tz-database zones: repeated and skipped wall-clock hours, half-hour shifts, sub-minute offsets
+	for _, z := range tzInstants {
+		z := z
+		add("st-zone:"+z.name, "", func(s *signSpec) {
+			s.longValid = true
+			s.st = z.t()
+			if !z.exp.IsZero() {
+				s.expiry = z.exp.In(s.st.Location())
+			}
+		})
+	}
 	// scheme
 	add("scheme-empty", "", func(s *signSpec) { s.scheme = "" })
 	add("scheme-unknown", "", func(s *signSpec) { s.scheme = "notary.x509.other" })
@@ -690,6 +745,26 @@ func genSign(r *Runner, prop string) {
 			s.payload = string(b)
 		}
 		s.st = now.Add(-time.Duration(rng.Intn(3600)) * time.Second).Add(time.Duration(rng.Intn(1e9))).In(time.FixedZone("z", (rng.Intn(25)-12)*3600))
+		if rng.Intn(4) == 0 {
+			// any instant of 1952..2085 in a tz-database zone
+			zones := []string{"America/New_York", "Europe/Berlin", "Australia/Lord_Howe", "America/St_Johns", "Asia/Kathmandu", "Pacific/Chatham",
+				"Africa/Monrovia", "Europe/Amsterdam", "Europe/Dublin", "Asia/Tehran", "America/Caracas", "Pacific/Apia"}
+			loc, err := time.LoadLocation(zones[rng.Intn(len(zones))])
+			if err != nil {
+				panic(err)
+			}
+			s.longValid = true
+			s.st = time.Unix(int64(-568000000)+rng.Int63n(4200000000), int64(rng.Intn(1e9))).In(loc)
+			if rng.Intn(3) == 0 {
+				// near a transition of the zone, if it has one around there
+				y := 1975 + rng.Intn(60)
+				for _, md := range [][2]int{{3, 8 + rng.Intn(24)}, {10, 24 + rng.Intn(14)}, {4, 1 + rng.Intn(7)}, {11, 1 + rng.Intn(7)}} {
+					if rng.Intn(4) == 0 {
+						s.st = time.Date(y, time.Month(md[0]), md[1], rng.Intn(4), rng.Intn(60), rng.Intn(60), rng.Intn(1e9), loc)
+					}
+				}
+			}
+		}
 		if rng.Intn(2) == 0 {
 			s.expiry = s.st.Add(time.Duration(1+rng.Intn(100000)) * time.Second)
 		}
